@@ -103,7 +103,12 @@ func N(quick, thorough int) int {
 	if Thorough() {
 		return scale(thorough)
 	}
-	return scale(quick)
+	// the quick tier of the slower checks is split over a few processes: the case count is shared out
+	n := scale(quick)
+	if sh := Shards(); sh > 1 {
+		n = (n + sh - 1) / sh
+	}
+	return n
 }
 
 // Replaying reports whether this process is a replay of one saved case.
